@@ -109,6 +109,7 @@ class Part:
     a: object = None
     b: object = None
     node: object = field(default=None, compare=False, hash=False)
+    fmt: bool = field(default=False, compare=False, hash=False)     # passed through an f-string / str(): certainly text
 
     def __repr__(self):
         return f'{{{self.kind}:{self.a!r}{"," + repr(self.b) if self.b is not None else ""}}}'
@@ -563,7 +564,11 @@ class Interp:
                 if v.format_spec is not None:
                     parts.append(Part('opaque', 'format-spec', node=v))
                 else:
-                    parts.append(self.to_code(val, v, conv='r' if conv in ('r', 'a') else ''))
+                    c_ = self.to_code(val, v, conv='r' if conv in ('r', 'a') else '')
+                    if isinstance(c_, Code):
+                        import dataclasses as _dc
+                        c_ = Code(tuple(_dc.replace(q, fmt=True) if isinstance(q, Part) and q.kind == 'slot' else q for q in c_.parts))
+                    parts.append(c_)
         return code_of(*parts)
 
     def ev_FormattedValue(self, node, env):
@@ -1526,6 +1531,10 @@ class Interp:
                             parts.append(Part('opaque', it.why, node=node))
                             continue
                         raise SymRaise('TypeError', node, f'join: item is {type(it).__name__}, not str', where=self.where())
+                    if isinstance(it, Code) and len(it.parts) == 1 and isinstance(it.parts[0], Part) and it.parts[0].kind == 'slot' \
+                            and not it.parts[0].fmt:
+                        # the result of another translator is used where only a str works
+                        self.effects.append(Effect('str-required', {'slot': it.parts[0].a, 'how': 'str.join'}, node))
                     parts.append(self.to_code(it, node))
                 c = code_of(*parts)
                 if isinstance(seq, ListV) and seq.reordered:
